@@ -19,4 +19,16 @@ noncomputable def fitQ (eps sw sh dw dh cx cy : ℚ) : ℚ × ℚ × ℚ × ℚ 
   let ch := if |ir - rr| < eps then sh else if ir ≥ rr then sh else sw / rr
   ((sw - cw) * cx, (sh - ch) * cy, cw, ch)
 
+/-- the same computation in the operation order of the code, every arithmetic operation rounded by an
+    arbitrary `fl` (the conversions `u32 as f64` are exact) -/
+noncomputable def fitF (fl : ℚ → ℚ) (eps sw sh dw dh cx cy : ℚ) : ℚ × ℚ × ℚ × ℚ :=
+  let cx := max 0 (min cx 1)
+  let cy := max 0 (min cy 1)
+  let ir := fl (sw / sh)
+  let rr := fl (dw / dh)
+  let same := |fl (ir - rr)| < eps
+  let cw := if same then sw else if ir ≥ rr then fl (rr * sh) else sw
+  let ch := if same then sh else if ir ≥ rr then sh else fl (sw / rr)
+  (fl (fl (sw - cw) * cx), fl (fl (sh - ch) * cy), cw, ch)
+
 end Fir.Spec
